@@ -6,12 +6,30 @@ import os
 VERIF = os.path.dirname(os.path.dirname(os.path.abspath(__file__)))
 
 NA = {
-    "C01": "the sampled law of a floating-point rejection sampler is a measure-theoretic/numerical fact; no sound static argument in reach bounds a Kolmogorov distance; its shape-visible clauses are decided under C03/C04/C07 (DESIGN.md 5/C01)",
     "C02": "the sampled pmf (BTPE/H2PE squeeze constants, float recurrences) is numerical; not decidable from code shape (DESIGN.md 5/C02)",
 }
 PENDING = "check under construction in this session (see DESIGN.md 10 build order)"
 
 CHECKS = {
+    "C01": dict(
+        category="other",
+        text="Agreement of each continuous sampler with the reference algorithm it cites, decided from the MIR by computer algebra — not the law itself. "
+             "Covered: Gamma (Marsaglia-Tsang: proposal, v_cbrt guard, squeeze with its constant 0.0331, exact log test, returned v; d = shape - 1/3, "
+             "c = 1/sqrt(9d); the shape<1 boost u^(1/shape) with shape+1), Normal / from_zscore, LogNormal, Exp, ChiSquared (k = 1 vs Gamma), StudentT, "
+             "FisherF, InverseGaussian (Michael-Schucany-Haas root and its selection probability), NormalInverseGaussian, SkewNormal (max/min "
+             "representation incl. the 1/sqrt(2)), Pert. For each function: every comparison is a test of the reference (difference terms identical up to "
+             "sign), the decision functions agree on every truth assignment of the tests (order of independent tests, `||`, early `continue` are free), every "
+             "returned term and every derived constructor constant is identical over the reals. Squeeze constants, signs, exponents and root selections are "
+             "what a law test at one parameter point per family cannot pin down; here they hold for every parameter value.",
+        design_ref="DESIGN.md 5/C01 and 11.8",
+        note="NOT decided: that the reference algorithms have the documented law (cited theorems, trusted), tails/rounding/f32 accuracy, Beta (Cheng BB/BC not "
+             "transcribed) and therefore Pert's inner variate, the ziggurat primitives (C06) and the single-draw transforms (C13). The reference decision lists were "
+             "transcribed by hand from the papers and the crate's documentation (trusted base). An alarm needs a refutation at an exact rational point; anything "
+             "the normaliser cannot decide is reported as not decided. A law-preserving change that leaves the cited algorithm (another valid sampler) is reported as a "
+             "deviation from the reference — stated as a limit.",
+        technique="decision-structure extraction from rustc MIR (feasible paths of one loop iteration, normalised comparison atoms, value-numbered terms) + computer-algebra identity and truth-table comparison against transcribed reference algorithms",
+        engine="rdx+E4+sympy",
+    ),
     "C10": dict(
         category="other",
         text="Structural clauses of the descent in try_sample, for every extracted weight type: the target is random_range(ZERO..root subtotal); a "
